@@ -334,6 +334,8 @@ impl Vfs {
         ensures forall|ino: VfsInode| #[trigger] b.route(ino) == a.route(ino),             // [C19.indist.route]
                 forall|i: u8| #[trigger] b.eff_map(i) == a.eff_map(i),                     // [C19.indist.mappings]
                 forall|k: u64| a.mp().contains_key(k) <==> b.mp().contains_key(k),         // the same pseudo directories are mount points
+                // the same indices are in use: with the restored cursor, allocate_fs_idx (which reads nothing else) hands out what it would have
+                forall|i: int| 0 <= i < 256 ==> ((#[trigger] b.sb()[i]) is Some <==> a.sb()[i] is Some),   // [C19.indist.occupancy]
     {
         assert forall|i: int| 0 <= i < 256 implies ((#[trigger] b.sb()[i]) is Some <==> a.sb()[i] is Some) by {
             if a.sb()[i] is Some { let k = choose|k: u64| a.mp().contains_key(k) && (#[trigger] a.mp()[k]).fs_idx == i; assert(a.mp().dom().contains(k)); }
@@ -481,7 +483,15 @@ def unit(root='/repo'):
                     'res is Ok ==> final(self).maps() == old(self).maps() && final(self).id_mapping == old(self).id_mapping // [C19.restore_mount.mapping_kept] the mapping restored for this index stays in force',
                     'res is Ok ==> final(self).mp()[old(self).root.mount_ino(path@)].root_entry == old(self).entry_out(fs_idx, fs.res_mount()->Ok_0.0.inode, fs.res_mount()->Ok_0.0) // [C19.restore_mount.root_ids] mount root translated with the restored mapping of this index',
                     'res is Ok ==> final(self).opts == old(self).opts && final(self).initialized == old(self).initialized // [C19.restore_mount.frame]',
-                    'res is Ok ==> Vfs::post_restore_mount(*old(self), *final(self), fs_idx, old(self).root.mount_ino(path@), fs.res_mount()->Ok_0.0, Arc::new(fs)) // [C19.restore_mount.post]']),
+                    'res is Ok ==> Vfs::post_restore_mount(*old(self), *final(self), fs_idx, old(self).root.mount_ino(path@), fs.res_mount()->Ok_0.0, Arc::new(fs)) // [C19.restore_mount.post]',
+                    # re-attaching at a VACANT recorded index keeps the table invariant the routing proofs rest on (an occupied index or index 0 is the caller's error: not refused by the code)
+                    'res is Ok && old(self).inv() && old(self).sb()[fs_idx as int] is None ==> final(self).inv() // [C19.restore_mount.inv]'],
+           splices=[('self.insert_mount_locked(fs, entry, fs_idx, path)', 'before', '''proof {
+            let o = *self; let pino = self.root.mount_ino(path@);
+            assert forall|n: Vfs, f: Arc<BackFileSystem>| o.inv() && o.sb()[fs_idx as int] is None && #[trigger] Vfs::post_restore_mount(o, n, fs_idx, pino, entry, f) implies n.inv() by {
+                Vfs::lemma_restore_mount_keeps_inv(o, n, fs_idx, pino, entry, f);
+            }
+        }''')]),
     ]))
     unit_ = Unit('vfspersist', items, preludes=u.preludes, generic_tags={'cap': ['C19'], 'touch': ['C19'], 'ids': ['C19'], 'snapver': ['C19']})
     unit_.prelude_subst = u.prelude_subst
